@@ -1,12 +1,11 @@
 /-
   Core D, deep part (4): the sub-universe of the compiler-correctness theorem (Props/C01Dir
-  `exec_compile_eq_stream_partial`): bool, the integer kinds, strings, pointers, slices (not of bytes), arrays,
+  `exec_compile_eq_stream_partial`): bool, the integer kinds, strings, interface{}, pointers, slices (not of bytes), arrays,
   structs whose JSON-visible fields do not carry the `,string` option, and the float kinds.
 
-  Outside, and why: json.Number, []byte (base64),
-  interface{} (the generic decoder is a different program), named types (callbacks), maps (an element is decoded into
-  the entry already stored: witness `map_dup_key_deviates`), `,string` (the quoted content is read in place, not
-  unquoted first: witness `string_opt_deviates`).
+  Outside, and why: json.Number, []byte (base64), named types (callbacks), maps (an element is decoded into the entry already
+  stored: witness `map_dup_key_deviates`; map[string]E at the top with pairwise different keys is Proofs/DirMap.lean), `,string`
+  (the quoted content is read in place, not unquoted first: witness `string_opt_deviates`).
 -/
 import SonicSpec.Model.DirExec
 namespace SonicSpec.Dir
@@ -21,7 +20,7 @@ def okWidth (w : Nat) : Bool := w == 8 || w == 16 || w == 32 || w == 64
 
 mutual
 def Sub : GoType → Bool
-  | .bool | .str | .f32 | .f64 => true
+  | .bool | .str | .f32 | .f64 | .any => true
   | .int w | .uint w => okWidth w
   | .ptr t => Sub t
   | .sl t => notU8 t && Sub t
